@@ -134,7 +134,7 @@ def tiny_cut(r):
     """the vertex the floating-point simplex will stop at is cut off by 10^-e: feasible LPs whose optimum differs from the
     "double" optimum by less than any tolerance (near-degenerate vertices, rows with basic slacks that are exactly violated)"""
     n = r.randint(2, 5)
-    kind = r.choice(["box_sum", "box_sum_range", "linked_eq", "two_cuts", "eq_basic", "eq_basic", "eq_logical", "eq_logical"])
+    kind = r.choice(["box_sum", "box_sum_range", "linked_eq", "two_cuts", "eq_basic", "eq_basic"])
     e = r.choice([10, 11, 12, 13, 15, 20, 30])
     eps = F(1, 10 ** e) if r.random() < .6 else F(1, 2 ** r.choice([20, 24, 30, 40]))       # decimal or dyadic (exactly representable in a double)
     lp = _mk(0, n, True)
@@ -161,16 +161,6 @@ def tiny_cut(r):
         add([(0, F(1)), (1, F(1))], "E", F(1) - eps)
         for j in range(2, n):
             add([(j, F(1)), (0, F(r.choice([0, 1])))], "L", F(2))
-    elif kind == "eq_logical":
-        # an equality whose basic LOGICAL is just off zero at the slack basis the floating-point solve stops at:
-        # min c.x (c > 0), 0 <= x <= 1, sum +-x_j = +-eps  (x = 0 looks optimal and feasible to a double; the logical sits at +-eps)
-        lp["max"] = False
-        sg = r.choice([1, 1, -1])
-        js = r.sample(range(n), r.randint(1, n))
-        add([(j, F(sg)) for j in js], "E", sg * eps)
-        if r.random() < .5:
-            add(allj, "L", F(n))
-        return lp
     elif kind == "linked_eq":
         lp["lo"][1], lp["up"][1] = NINF, INF
         lp["obj"] = [F(1)] + [F(0)] * (n - 1)
@@ -183,6 +173,30 @@ def tiny_cut(r):
     if r.random() < .3:         # minimise the negated objective instead
         lp["obj"] = [-v for v in lp["obj"]]
         lp["max"] = False
+    # kind "eq_logical" (added later): decided and built from a private generator so that the stream of `r`, and with it every
+    # other LP of the seeded families, stays what it was
+    import random as _random
+    r2 = _random.Random("%d/%s/%s" % (n, eps, kind))
+    if r2.random() < .3:
+        return _eq_logical(r2, n, eps)
+    return lp
+
+
+def _eq_logical(r, n, eps):
+    """an equality whose basic LOGICAL is just off zero at the slack basis the floating-point solve stops at:
+    min c.x (c > 0), 0 <= x <= 1, sum +-x_j = +-eps  (x = 0 looks optimal and feasible to a double; the logical sits at +-eps)"""
+    lp = _mk(0, n, False)
+    for j in range(n):
+        lp["lo"][j], lp["up"][j] = F(0), F(1)
+        lp["obj"][j] = F(r.choice([1, 1, 2, 3]))
+    sg = r.choice([1, 1, -1])
+    js = r.sample(range(n), r.randint(1, n))
+    rows = [(sorted((j, F(sg)) for j in js), "E", sg * eps)]
+    if r.random() < .5:
+        rows.append(([(j, F(1)) for j in range(n)], "L", F(n)))
+    for ent, sense, rhs in rows:
+        lp["A"].append(ent); lp["sense"].append(sense); lp["rhs"].append(rhs); lp["range"].append(F(0))
+        lp["rname"].append("t%d" % (lp["m"] + 1)); lp["m"] += 1
     return lp
 
 
